@@ -21,7 +21,7 @@ META = dict(
     id='C11',
     level='proof',
     technique='Coq proof about the modelled mechanisms (buffer-copy arithmetic over a site list regenerated from the source, parser nesting depth, division guards, period-stepping variant) + differential correspondence of the extracted model against ledger on boundary inputs + observation (signals, timeouts, exit status, ASan/UBSan in the thorough tier) on boundary, truncated and mutated inputs',
-    level_text='PARTIAL. Proved in coq/Properties/Properties_C11.v: (a) for every fixed char buffer of src/*.cc,*.h and every statement that writes through it (list regenerated from the source on each run; unclassifiable statements fail closed) the bytes stored never exceed the capacity, for every input length; the READ_INTO macro is transcribed and its bound proved; (b) every expression the recursive-descent parser accepts nests at most src_parse_depth_limit deep and fetches at most src_expr_token_limit tokens (both constants and their guards are read from the source), while without those guards depth and length are unbounded; (c) every division cell of the amount/balance/value model tests the operand it divides by, so a zero divisor never yields a quotient; (d) the period-stepping loop of date_interval_t::stabilize has a strictly increasing variant for every quantity the period parser accepts, and never terminates for a zero quantity (which the source rejects); (e) the `%$N` prior-field reference of format strings, a walk along the element list of the template, never dereferences the null pointer with the tests the source has (its exact bounds are proved for the guarded and the unguarded loop); the guards added by the repairs (query nesting/terms, roundto places, conversion cycles, missing expression argument, script loop, generated transactions without journal, find_account frame buffer) are recognised in the source and their presence is a theorem. The model is tied to the code by the regenerated tables and by comparing predicted outcome classes with freshly built ledger on boundary inputs (every site constant +/-2, 255/256/257 parentheses, 4095/4096/4097 tokens, 256/257 query terms, 65535/65536 places, `%$N` for N = 1..F against templates of 0..16 fields, ...). NOT covered: memory safety, absence of undefined behaviour and bounded stack use of the compiled program in general (heap objects, iterators, std::string, boost, the report/filter code, integer overflow) - for these the check only observes (signals, timeouts, exit status, sanitizer reports in the thorough tier) on boundary-directed, truncated and mutated inputs; defects found that way and not yet repaired are listed as findings (F46, F48 use after free; F50 conversion through an annotated commodity, F51 self-referring definitions, F52 unbounded format widths - patches prepared).',
+    level_text='PARTIAL. Proved in coq/Properties/Properties_C11.v: (a) for every fixed char buffer of src/*.cc,*.h and every statement that writes through it (list regenerated from the source on each run; unclassifiable statements fail closed) the bytes stored never exceed the capacity, for every input length; the READ_INTO macro is transcribed and its bound proved; (b) every expression the recursive-descent parser accepts nests at most src_parse_depth_limit deep and fetches at most src_expr_token_limit tokens (both constants and their guards are read from the source), while without those guards depth and length are unbounded; (c) every division cell of the amount/balance/value model tests the operand it divides by, so a zero divisor never yields a quotient; (d) the period-stepping loop of date_interval_t::stabilize has a strictly increasing variant for every quantity the period parser accepts, and never terminates for a zero quantity (which the source rejects); (e) the `%$N` prior-field reference of format strings, a walk along the element list of the template, never dereferences the null pointer with the tests the source has (its exact bounds are proved for the guarded and the unguarded loop); the guards added by the repairs (query nesting/terms, roundto places, conversion cycles, missing expression argument, script loop, generated transactions without journal, find_account frame buffer) are recognised in the source and their presence is a theorem. The model is tied to the code by the regenerated tables and by comparing predicted outcome classes with freshly built ledger on boundary inputs (every site constant +/-2, 255/256/257 parentheses, 4095/4096/4097 tokens, 256/257 query terms, 65535/65536 places, `%$N` for N = 1..F against templates of 0..16 fields, ...). NOT covered: memory safety, absence of undefined behaviour and bounded stack use of the compiled program in general (heap objects, iterators, std::string, boost, the report/filter code, integer overflow) - for these the check only observes (signals, timeouts, exit status, sanitizer reports in the thorough tier) on boundary-directed, truncated and mutated inputs; defects found that way and not yet repaired are listed as findings (F46, F48 use after free; F51 conversion through an annotated commodity, F52 self-referring definitions, F53 unbounded format widths - patches prepared).',
     level_note='Trusted: Coq kernel; the translator harness/translators/c11_buffers.py (narrow patterns, fail closed) for the site list and guard constants; extraction + OCaml driver + python harness for the correspondence; the calendar is not modelled in (d) (month steps only by the lower bound 28 days per month); the assumption that `line` in textual.cc always points into parse_context_t::linebuf. Sanitizer observation exists only in the thorough tier.',
     design_ref='DESIGN.md section 7 C11, section 12',
     assumptions=['stack limit of the test environment is the default 8 MiB (the crash depth of findings F4/F38 depends on it)',
@@ -647,13 +647,13 @@ def long_tokens(ctx, res, binary=None, env=None, sanitizer=False):
     # a conversion directive naming one commodity on both sides
     for t in ['C 1 a = 2 a\n', 'C $4 = $-110\n', 'C 1 a = 2 b\nC 1 b = 2 a\n', 'C 1 a = 2 b\nC 1 b = 2 c\nC 1 c = 2 a\n']:
         cases.append(Case('commodity-conversion-self', t + '2020/01/01 p\n  A  2 a\n  A  $2\n  B\n', ['bal'], info=E('error')))
-    # the same through an annotated commodity, which shares its base's links (F50 until repaired:
+    # the same through an annotated commodity, which shares its base's links (F51 until repaired:
     # the expected class is 'error' as soon as the translator sees the repair in the source)
     for t in ['C 1 a {$1} = 2 a\n', 'C 1 a = 2 a {$1}\n', 'C 1 a {$1} = 2 b\nC 1 b = 2 a [2020/01/01]\n']:
         cases.append(Case('commodity-conversion-annotated-self', t + '2020/01/01 p\n  A  2 a\n  B\n', ['bal'],
                           info=E('error') if GUARDS.get('conversion_cycle_by_referent') else {}))
     cases.append(Case('commodity-conversion', 'C 1 a {$1} = 2 b\n2020/01/01 p\n  A  2 a\n  B\n', ['bal'], info=E('ok')))
-    # definitions that refer to each other (F51 until repaired)
+    # definitions that refer to each other (F52 until repaired)
     dj = 'define foo = bar\ndefine bar = foo\n' + j
     for a in (['reg', '--amount', 'foo(1)'], ['reg', '--amount', 'foo'], ['bal', '-l', 'foo']):
         cases.append(Case('define-recursion', dj, a + NOW, info=E('error') if GUARDS.get('calc_depth_limit') else {}))
